@@ -1102,7 +1102,9 @@ bool Session::send_process(Message *msg) // called from the connection (possibly
 				f8_scoped_spin_lock guard(_per_spl, _connection->get_pmodel() == pm_coro); // not needed for coroutine mode
 				if (!msg->is_admin())
 					_persist->put(_next_send_seq, optr); // this message's own bytes; ptr may point at the (cleared) batch buffer
-				_persist->put(_next_send_seq + 1, _next_receive_seq);
+				const bool will_increment(!msg->get_custom_seqnum() && !msg->get_no_increment()
+					&& msg->get_msgtype() != Common_MsgType_SEQUENCE_RESET);
+				_persist->put(_next_send_seq + (will_increment ? 1 : 0), _next_receive_seq);
 				//cout << "Persisted (send):" << (_next_send_seq + 1) << " and " << _next_receive_seq << endl;
 			}
 			if (!msg->get_custom_seqnum() && !msg->get_no_increment() && msg->get_msgtype() != Common_MsgType_SEQUENCE_RESET)
